@@ -314,6 +314,8 @@ class Fold(Spec):
             st.ghost["made_val"] = sgn(z_int(args[0]), w)
             return [Res("val", VRef(r, "IntegerAttr"), st)]
 
+        b_integer_attr.ghost_modifies = ["made", "made_val"]
+
         def b_get_constant(ex, st, args, kw):
             which = "lhs" if args[0].z.eq(spec.operand["lhs"]) else "rhs"
             return [Res("val", VRef(spec.cattr[which], "IntegerAttr") if spec.const[which] else None, st)]
@@ -383,6 +385,8 @@ class FoldConst(Spec):
             st.ghost["folded"] = z_float(args[0])
             return [Res("val", VRef(z3.IntVal(50), "FloatAttr"), st)]
 
+        b_float_attr.ghost_modifies = ["folded"]
+
         def b_const(ex, st, args, kw):
             from pyvc.engine import Res
 
@@ -446,6 +450,7 @@ class CmpiEqualOperands(Spec):
             spec.replaced = True
             return [Res("val", None, st)]
 
+        b_from_bool.ghost_modifies = ["const"]
         return {"BoolAttr.from_bool": Builtin(b_from_bool), "arith.ConstantOp": Builtin(b_const), "rewriter.replace": Builtin(b_replace)}
 
     def setup(self, st, inst):
